@@ -15,6 +15,9 @@ QUERIES = [
     (["D", "d", "viapar", ["id", "u"]], "valid"),
     # a different tuple with the same canonical string n:o#r@s as the fourth one: a subject id that looks like a subject set
     (["D", "d", "either", ["id", "G:g#m"]], "valid"),
+    # relationships that are stored verbatim in some of the states (a subject id and a subject set)
+    (["D", "d", "a", ["id", "u"]], "valid"),
+    (["G", "g", "m", ["set", "G", "h", "m"]], "valid"),
 ]
 STATES = [[], [8], [2, 8], [1, 3, 4, 5, 6], [3, 5, 6, 9, 10], [1, 2, 3, 4, 5, 6, 7, 8, 9, 10], [3, 4, 8], [2, 3, 5, 6]]
 
@@ -35,7 +38,7 @@ def c08(tier):
     defs, _ = p_check.oracle("quick", ["rw"], dck, sample=1, ords=1)
     ck.states += dck.states; ck.transitions += dck.transitions
     # the server's own depth limit is 3, so that request depths on both sides of it are sent
-    depths = [0, 2, 5] if tier == "quick" else [-1, 0, 1, 2, 3, 5, 8, 100]
+    depths = [0, 1, 2, 5] if tier == "quick" else [-1, 0, 1, 2, 3, 5, 8, 100]
     inp = {"def": defs["rw"], "states": STATES, "queries": [q for q, _ in QUERIES], "depths": depths, "batches": batches, "maxbatch": table["maxbatch"],
            "gdepth": 3}
     recs = run_harness(binary, "api", inp, shards=min(8, len(STATES)))
